@@ -62,7 +62,8 @@ Section D.
     forallb (fun i => existsb (Nat.eqb i) (tl (update_order M))) (body_range M) &&
     forallb (fun i => Nat.ltb 0 i && Nat.ltb i (nbodies M)) (tl (update_order M)).
 
-  (* NonlinearEffects -- as repaired by the "fix:" commits (c_J kept and X_base refreshed) *)
+  (* NonlinearEffects -- as repaired by the "fix:" commits (c_J kept, X_base refreshed, external forces on
+     massless bodies applied) *)
   Definition nonlinear_effects (M : Model) (w : WS) (q qd : list T) (tau : list T)
              (fext : option (list SV)) : WS * list T :=
     let sg := grav_sv M false in
@@ -81,13 +82,11 @@ Section D.
       let w := match fext with
                | Some _ => w_Xb w (upd (wXb w) i (st_mul O (gXl O w i) (gXb O w lam)))
                | None => w end in
-      if bvirtual (getbody O M i) then w_f w (upd (wf w) i (svzero O))
-      else
-        let f := body_force M w i in
-        let f := match fext_at fext i with
-                 | Some fe => if sv_is_zero fe then f else svsub O f (st_applyAdj O (gXb O w i) fe)
-                 | None => f end in
-        w_f w (upd (wf w) i f)
+      let f := if bvirtual (getbody O M i) then svzero O else body_force M w i in
+      let f := match fext_at fext i with
+               | Some fe => if sv_is_zero fe then f else svsub O f (st_applyAdj O (gXb O w i) fe)
+               | None => f end in
+      w_f w (upd (wf w) i f)
       ) (body_range M) w in
     inward_tau M w tau.
 
